@@ -234,6 +234,13 @@ def run(ctx):
     from rules import c04
     from rules.c09 import Renamed
     c04.cache_rules(Renamed(ctx, "C04.R2", "C11.R5"), ctx.facts("effects.cpp", "A", ()))
+    # an unbounded queue grows (allocates, on the caller) when the producer believes the node is full: the consumer publishes what it
+    # has read after every batch and when it has drained the node (= C09.R1), so that belief is never staler than one batch
+    from rules import c09
+    for cfg in ("A", "C"):
+        cf = ctx.facts("core.cpp", cfg)
+        for crec in cf.cls_all("quill::detail::BoundedSPSCQueueImpl", cfg):
+            c09.check_drain_publish(Renamed(ctx, "C09.R1", "C11.R6"), cf, cfg, crec)
     if ctx.tier == "thorough":
         macro_tier(ctx)
         matrix_tier(ctx)
